@@ -157,6 +157,33 @@ pub fn owned_spec(id: CodecId, max: usize) -> BoxedStrategy<SeqSpec> {
     (codes(m, max), owned_repr(m)).prop_map(|(codes, repr)| SeqSpec { codes, repr }).boxed()
 }
 
+/// owned representations plus a raw bit vector with a non-zero head (C02 / C18 only)
+pub fn owned_spec_raw(id: CodecId, max: usize) -> BoxedStrategy<SeqSpec> {
+    let m = id.model();
+    let r = prop_oneof![
+        6 => owned_repr(m),
+        1 => (1..64u8).prop_map(|head| Repr::RawBitVec { head }),
+    ];
+    (codes(m, max), r).prop_map(|(codes, repr)| SeqSpec { codes, repr }).boxed()
+}
+
+/// any representation (borrowed, owned, static where possible, raw bit vector)
+pub fn any_spec(id: CodecId, max: usize) -> BoxedStrategy<SeqSpec> {
+    prop_oneof![
+        8 => seq_spec(id, max),
+        1 => owned_spec_raw(id, max),
+    ]
+    .boxed()
+}
+
+pub fn any_repr(m: &'static Model) -> BoxedStrategy<Repr> {
+    prop_oneof![
+        12 => repr(m),
+        1 => (1..64u8).prop_map(|head| Repr::RawBitVec { head }),
+    ]
+    .boxed()
+}
+
 pub fn codec() -> BoxedStrategy<CodecId> {
     select(crate::model::ALL_CODECS.to_vec()).boxed()
 }
